@@ -369,7 +369,7 @@ def machine_reuse_jobs(tier):
         J.append(j)
     reused = list(J)
     J = []
-    for j in mjobs.answer_oom_jobs(tier) + mjobs.requeue_oom_jobs(tier):
+    for j in mjobs.answer_oom_jobs(tier) + mjobs.requeue_oom_jobs(tier) + mjobs.sendquery_oom_jobs(tier):
         j = dict(j)
         J.append(j)
     J, own = reused, J
